@@ -34,7 +34,7 @@ func NewSpecDB() *SpecDB {
 	}
 }
 
-var directiveRe = regexp.MustCompile(`^(props|ghost|spec|lemma|func|extern|arith|trusted|pure|requires|ensures|canary|modifies|loop|nullable|nopanic|let|effects|axiom)\b`)
+var directiveRe = regexp.MustCompile(`^(props|ghost|spec|lemma|func|site|extern|arith|trusted|pure|requires|ensures|canary|modifies|loop|nullable|nopanic|let|effects|axiom)\b`)
 
 type rawLine struct {
 	text string
@@ -179,7 +179,7 @@ func (db *SpecDB) LoadFile(path, pkgPath, prefix string) {
 			cur = nil
 		case "spec":
 			// spec func name(params) ret = body     |  spec func name(params) ret   (uninterpreted)
-			m := regexp.MustCompile(`^func\s+(\w+)\s*\(([^)]*)\)\s*([\w\[\]\.\*]+)\s*(=\s*(.*))?$`).FindStringSubmatch(rest)
+			m := regexp.MustCompile(`^func\s+(\w+)\s*\(([^)]*)\)\s*([\w\[\]\.\*/\-]+)\s*(=\s*(.*))?$`).FindStringSubmatch(rest)
 			if m == nil {
 				db.errf(path, rl.line, "bad spec func: %s", rest)
 				continue
@@ -227,6 +227,18 @@ func (db *SpecDB) LoadFile(path, pkgPath, prefix string) {
 			}
 			db.Lemmas = append(db.Lemmas, lm)
 			cur = nil
+		case "site":
+			// site <caller> | <callee> | <n>   : contract of the n-th call (source order) of callee inside caller,
+			// evaluated in the caller's scope (caller parameters; result/err of the call)
+			parts := strings.Split(rest, "|")
+			if len(parts) != 3 {
+				db.errf(path, rl.line, "expected: site <caller> | <callee> | <n>")
+				continue
+			}
+			caller := qualifyKey(strings.TrimSpace(parts[0]), pkgPath)
+			key := fmt.Sprintf("site:%s:%s#%s", caller, strings.TrimSpace(parts[1]), strings.TrimSpace(parts[2]))
+			cur = &Contract{Key: key, Pkg: pkgPath, File: path, Arith: "wrap", Loops: map[int]*LoopContract{}, Nullable: map[string]bool{}, NoPanic: true, Props: fileProps, Trusted: true, Site: true}
+			db.Contracts[key] = cur
 		case "func", "extern":
 			key := rest
 			if kw == "extern" {
